@@ -565,7 +565,7 @@ def data_received(u: U):
                "_parser": _Parser(), "_request_count": 0, "_messages": msgs, "_waiter": w, "_msg_queue_paused": False,
                "_max_msg_queue_size": maxq, "_message_tail": b"", "transport": _T(), "_read_bufsize": 65536,
                "_data_received_cb": None},
-              {"_pause_msg_queue_reading": lambda self: pm(self)}, shared=False)
+              {"_pause_msg_queue_reading": lambda self: pm(self)}, shared=False, real=(MOD, "RequestHandler"))
     f = u.load(MOD, "RequestHandler.data_received")
     u.loop("web_protocol:RequestHandler.data_received", 0, unroll=True, bound=4)
     data = u.bytes("data")
@@ -674,7 +674,7 @@ def finish_response(u: U):
               {"_pause_msg_queue_reading": lambda self: log.append(("pause",)),
                "_resume_msg_queue_reading": lambda self: log.append(("resume",)),
                "log_access": lambda self, *a: SAwait(name="log_access"),
-               "log_exception": lambda self, *a, **k_: None}, shared=False)
+               "log_exception": lambda self, *a, **k_: None}, shared=False, real=(MOD, "RequestHandler"))
     f = u.load(MOD, "RequestHandler.finish_response")
     u.loop("web_protocol:RequestHandler.finish_response", 0, unroll=True, bound=4)
     out = u.call(f, h, _Request(), _Resp(), None)
